@@ -64,6 +64,42 @@ type c18Obs struct {
 	LostWhileUp bool   `json:"lost_while_up,omitempty"` // e2e: Disconnected before the harness ended the session
 	RawBad      string `json:"raw_bad,omitempty"`       // e2e over TLS: first thing on the socket that is not a TLS record
 	DetectUs    int64  `json:"detect_us,omitempty"`     // ws: from the cut to the Disconnected event
+	Wire        string `json:"wire,omitempty"`          // tcp/e2e: what the server read in the XML stream where keep-alives go
+}
+
+// kaIsWS: XML white space. A whitespace keep-alive is any non-empty run of it (the property
+// does not fix the byte: RFC 6120 4.6.1 names the space, the code writes a line feed).
+func kaIsWS(b byte) bool { return b == ' ' || b == '\t' || b == '\r' || b == '\n' }
+func kaAllWS(s []byte) bool {
+	for _, b := range s {
+		if !kaIsWS(b) {
+			return false
+		}
+	}
+	return true
+}
+
+// kaUnits: how many keep-alives w bytes of white space are, when p pings were made: one byte
+// each, or the same number of bytes each (exact = every ping arrived); after a cut the
+// server holds a prefix.
+func kaUnits(w, p int, exact bool) int {
+	if p <= 0 || w <= p {
+		return w
+	}
+	if exact {
+		if w%p == 0 {
+			return p
+		}
+		return w
+	}
+	u := (w + p - 1) / p
+	return (w + u - 1) / u
+}
+
+// kaWireSx: (keep-alives the server read, only white space?) as compared with the model.
+func kaWireSx(wire []byte, p int, exact bool) (Sx, int) {
+	n := kaUnits(len(wire), p, exact)
+	return L(Zi(n), B(kaAllWS(wire))), n
 }
 
 type c18In struct {
@@ -91,7 +127,7 @@ func (c18) ID() string    { return "C18" }
 func (c18) RunFn() string { return "run_C18" }
 func (c18) Workers() int  { return 8 }
 func (c18) Rule() string {
-	return "keepalive goroutine (VerifKeepalive) on a recording stub transport, intervals 1-10 ms: run for T then close quit; quit closed at a random phase of the ticker (0-5 intervals + 0-99 %, incl. exactly on a tick); quit closed before the goroutine starts; Ping failing at the k-th call for every k in 1..10 x interval; interval 0 / negative. Real XMPPTransport over loopback TCP (scripted server records every byte after the stream header): healthy run, server resets / closes the connection after reading n bytes (Close waiting out its timeout or answered at once). Real XMPPTransport over a scripted net.Conn: every conn.Write / conn.Close call, scripted write results (short counts, errors; after an error the connection stays dead for writing while reads block), with and without a real Client receive loop blocked on the same connection and sharing quit: the connection must get closed after the failed keep-alive and the loss be reported (ErrorHandler, Disconnected). End to end: real Client.Connect (KeepaliveInterval 2-5 ms) against the scripted XMPP server (SASL PLAIN + bind), session up for T, then ended by a server reset / the server's </stream:stream> / Client.Disconnect at a random phase; Ping and Close calls logged by a wrapper around the client's transport, keep-alive bytes counted at the server; after the Disconnected event + grace nothing may be pinged for 10 more intervals; the same over real STARTTLS with the certificate verified (RootCAs) and with InsecureSkipVerify: the keep-alive bytes must show up in the DECRYPTED stream at the server, the raw socket must carry nothing but TLS records, the session must not be torn down while it is up. WebSocket transport end to end (loopback nhooyr.io/websocket server, RFC 7395 open exchange, keepalive + receive loop started as Client.Connect does): pings answered for T, then the TCP connection underneath is reset / closed: the failed keep-alive (a WebSocket ping control frame, not whitespace: only the closed-so-that-the-loss-is-reported clause is checked there) must lead to Close, ErrorHandler and Disconnected within 8 s. The model receives the observed schedule (successful pings before the terminating event, how the run ended) plus a random continuation and must reproduce the ordered log ping-ok/ping-failed/Close/loop-over, the wire bytes, the calls on the connection and the reporting of the loss; distinct = scenario parameters; non-trivial = at least 2 pings before the terminating event"
+	return "keepalive goroutine (VerifKeepalive) on a recording stub transport, intervals 1-10 ms: run for T then close quit; quit closed at a random phase of the ticker (0-5 intervals + 0-99 %, incl. exactly on a tick); quit closed before the goroutine starts; Ping failing at the k-th call for every k in 1..10 x interval; interval 0 / negative. Real XMPPTransport over loopback TCP (scripted server records every byte after the stream header): healthy run, server resets / closes the connection after reading n bytes (Close waiting out its timeout or answered at once). Real XMPPTransport over a scripted net.Conn: every conn.Write / conn.Close call, scripted write results (short counts, errors; after an error the connection stays dead for writing while reads block), with and without a real Client receive loop blocked on the same connection and sharing quit: the connection must get closed after the failed keep-alive and the loss be reported (ErrorHandler, Disconnected). End to end: real Client.Connect (KeepaliveInterval 2-5 ms) against the scripted XMPP server (SASL PLAIN + bind), session up for T, then ended by a server reset / the server's </stream:stream> / Client.Disconnect at a random phase; Ping and Close calls logged by a wrapper around the client's transport, keep-alive bytes counted at the server; after the Disconnected event + grace nothing may be pinged for 10 more intervals; the same over real STARTTLS with the certificate verified (RootCAs) and with InsecureSkipVerify: the keep-alive bytes must show up in the DECRYPTED stream at the server, the raw socket must carry nothing but TLS records, the session must not be torn down while it is up. WebSocket transport end to end (loopback nhooyr.io/websocket server, RFC 7395 open exchange, keepalive + receive loop started as Client.Connect does): pings answered for T, then the TCP connection underneath is reset / closed: the failed keep-alive (a WebSocket ping control frame, not whitespace: only the closed-so-that-the-loss-is-reported clause is checked there) must lead to Close, ErrorHandler and Disconnected within 8 s. The model receives the observed schedule (successful pings before the terminating event, how the run ended) plus a random continuation and must reproduce the ordered log ping-ok/ping-failed/Close/loop-over, the number of keep-alives the server reads, the calls on the connection and the reporting of the loss. A keep-alive is compared as a CLASS: any non-empty run of XML white space (space, tab, CR, LF) written by one Ping, on the connection and in the stream the server reads; what happens for an interval <= 0 is outside the property and not compared beyond nothing-sent-nothing-closed; distinct = scenario parameters; non-trivial = at least 2 pings before the terminating event"
 }
 
 func c18Suffix(r *rand.Rand) []int {
@@ -310,6 +346,7 @@ type kaReal struct {
 	fc   *kaFakeConn // conn kind: the scripted connection underneath
 	mu   sync.Mutex
 	pw   [][]string // conn kind: payloads of the conn.Write calls made by each Ping
+	pg   [][2]int   // conn kind: [first, end) indices of those calls among all conn.Write calls
 }
 
 func (t *kaReal) Ping() error {
@@ -321,6 +358,7 @@ func (t *kaReal) Ping() error {
 	if t.fc != nil {
 		t.mu.Lock()
 		t.pw = append(t.pw, t.fc.writesFrom(before))
+		t.pg = append(t.pg, [2]int{before, t.fc.nwrites()})
 		t.mu.Unlock()
 	}
 	if err != nil {
@@ -485,15 +523,29 @@ func runKeepaliveStub(in *c18In, attempt int) (Sx, *c18Obs) {
 		kaWaitDone(done, 5*time.Second)
 	case "fail":
 		kaWaitDone(done, 5*time.Second+40*time.Duration(in.FailAt)*iv)
+	case "badiv":
+		kaWaitDone(done, 300*time.Millisecond)
 	default:
 		kaWaitDone(done, 5*time.Second)
 	}
 	kaSettle(iv)
 	evs := rec.snapshot()
 	if !closed {
-		close(quit) // let a loop that is wrongly still alive go away
+		close(quit) // let a loop that is still alive go away
 	}
-	return L(kaEvsSx(evs), SBytes(""), L(), kaNoReport), c18Summarise(evs, start, closeAt, closed, attempt)
+	o := c18Summarise(evs, start, closeAt, closed, attempt)
+	if in.Kind == "badiv" {
+		// outside the property's domain (the code panics in time.NewTicker; a default interval would do
+		// as well): only "nothing is sent, nothing is closed" is observed and compared
+		var keep []kaEv
+		for _, e := range evs {
+			if e.code == kaPingOk || e.code == kaPingFail || e.code == kaClose {
+				keep = append(keep, e)
+			}
+		}
+		evs = keep
+	}
+	return L(kaEvsSx(evs), L(), L(), kaNoReport), o
 }
 
 // ---- scripted TCP server: answers the stream header, then records every byte ----
@@ -647,7 +699,13 @@ func runKeepaliveTCP(in *c18In, attempt int) (Sx, *c18Obs) {
 	evs := rec.snapshot()
 	got := srv.received() // before our own clean-up writes </stream:stream>
 	o := c18Summarise(evs, start, closeAt, closed, attempt)
-	o.SrvN = len(got)
+	o.Wire = string(got)
+	var wsx Sx
+	if in.Kind == "tcprun" {
+		wsx, o.SrvN = kaWireSx(got, o.NSucc, true)
+	} else {
+		wsx, o.SrvN = kaWireSx(got, len(o.PingUs), false)
+	}
 	if !closed {
 		close(quit)
 	}
@@ -655,7 +713,7 @@ func runKeepaliveTCP(in *c18In, attempt int) (Sx, *c18Obs) {
 		go inner.ReceivedStreamClose()
 		inner.Close()
 	}
-	return L(kaEvsSx(evs), SBytes(string(got)), L(), kaNoReport), o
+	return L(kaEvsSx(evs), wsx, L(), kaNoReport), o
 }
 
 // ---- scripted net.Conn under the real XMPPTransport ----
@@ -664,11 +722,15 @@ type kaFakeConn struct {
 	mu        sync.Mutex
 	script    [][2]int
 	writes    []string
-	log       []Sx // every Write (0, data) and Close (1), in order
-	dead      bool // a write has failed: every later write fails as well
+	log       []kaConnEv // every Write and Close, in order
+	dead      bool       // a write has failed: every later write fails as well
 	closes    int
 	blockRead bool // reads block until the connection is closed locally
 	closedCh  chan struct{}
+}
+type kaConnEv struct {
+	close bool
+	data  string
 }
 type kaAddr struct{}
 
@@ -680,7 +742,7 @@ func (c *kaFakeConn) Write(p []byte) (int, error) {
 	defer c.mu.Unlock()
 	k := len(c.writes)
 	c.writes = append(c.writes, string(p))
-	c.log = append(c.log, L(Z(0), SBytes(string(p))))
+	c.log = append(c.log, kaConnEv{data: string(p)})
 	if c.dead {
 		return 0, errors.New("fake conn: broken pipe")
 	}
@@ -690,7 +752,8 @@ func (c *kaFakeConn) Write(p []byte) (int, error) {
 			err = errors.New("fake conn: write failed")
 			c.dead = true
 		}
-		return c.script[k][0], err
+		// scripted counts are written for a one-byte payload: 1 = everything, 0 = one byte short, ...
+		return len(p) + c.script[k][0] - 1, err
 	}
 	return len(p), nil
 }
@@ -704,7 +767,7 @@ func (c *kaFakeConn) Read(p []byte) (int, error) {
 func (c *kaFakeConn) Close() error {
 	c.mu.Lock()
 	c.closes++
-	c.log = append(c.log, L(Z(1)))
+	c.log = append(c.log, kaConnEv{close: true})
 	first := c.closes == 1
 	c.mu.Unlock()
 	if first {
@@ -712,10 +775,53 @@ func (c *kaFakeConn) Close() error {
 	}
 	return nil
 }
-func (c *kaFakeConn) snapshot() ([]Sx, int) {
+func (c *kaFakeConn) snapshot() ([]kaConnEv, int) {
 	c.mu.Lock()
 	defer c.mu.Unlock()
-	return append([]Sx{}, c.log...), c.closes
+	return append([]kaConnEv{}, c.log...), c.closes
+}
+
+// kaConnLogSx: the calls on the connection as compared with the model. The writes one Ping
+// made count as ONE whitespace keep-alive (0 1) when together they are a non-empty run of
+// XML white space; anything else is shown byte for byte.
+func kaConnLogSx(log []kaConnEv, groups [][2]int) Sx {
+	var out []Sx
+	w := 0 // index of the next Write call
+	g := 0
+	for i := 0; i < len(log); i++ {
+		if log[i].close {
+			out = append(out, L(Z(1)))
+			continue
+		}
+		for g < len(groups) && groups[g][1] <= w {
+			g++
+		}
+		if g < len(groups) && groups[g][0] == w && groups[g][1] > w {
+			// the writes of one Ping: log entries i.. until groups[g][1] writes are consumed
+			var all []byte
+			j, cnt := i, 0
+			for j < len(log) && cnt < groups[g][1]-groups[g][0] {
+				if !log[j].close {
+					all = append(all, log[j].data...)
+					cnt++
+				}
+				j++
+			}
+			closeInside := false
+			for _, e := range log[i:j] {
+				closeInside = closeInside || e.close
+			}
+			if len(all) > 0 && kaAllWS(all) && !closeInside {
+				out = append(out, L(Z(0), Z(1)))
+				w += cnt
+				i = j - 1
+				continue
+			}
+		}
+		out = append(out, L(Z(0), SBytes(log[i].data)))
+		w++
+	}
+	return LS(out)
 }
 func (c *kaFakeConn) LocalAddr() net.Addr              { return kaAddr{} }
 func (c *kaFakeConn) RemoteAddr() net.Addr             { return kaAddr{} }
@@ -805,8 +911,9 @@ func runKeepaliveConn(in *c18In, attempt int) (Sx, *c18Obs) {
 	for _, ws := range tr.pw {
 		o.PingWrites = append(o.PingWrites, append([]string{}, ws...))
 	}
+	groups := append([][2]int{}, tr.pg...)
 	tr.mu.Unlock()
-	return L(kaEvsSx(evs), SBytes(""), LS(clog), L(Zi(o.ErrCalls), Zi(o.DiscEvents))), o
+	return L(kaEvsSx(evs), L(), kaConnLogSx(clog, groups), L(Zi(o.ErrCalls), Zi(o.DiscEvents))), o
 }
 
 // ---- end to end: a real Client.Connect session against the scripted XMPP server ----
@@ -901,7 +1008,12 @@ func runKeepaliveE2E(in *c18In, attempt int) (Sx, *c18Obs) {
 	for dl := time.Now().Add(2 * time.Second); ; time.Sleep(time.Millisecond) {
 		if logs := srv.snapshot(); len(logs) > 0 {
 			w, _ := kaKeepaliveBytes(stream(logs[0]))
-			midGot = bytes.Count(w, []byte("\n"))
+			midGot = 0
+			for _, b := range w {
+				if kaIsWS(b) {
+					midGot++
+				}
+			}
 		}
 		if midGot >= midWant || time.Now().After(dl) {
 			break
@@ -953,12 +1065,17 @@ func runKeepaliveE2E(in *c18In, attempt int) (Sx, *c18Obs) {
 	o := c18Summarise(evs, start, closeAt, true, attempt)
 	o.ErrCalls, o.DiscEvents = errCalls, discEvents
 	mu.Unlock()
-	o.SrvN, o.SrvAtEnd, o.SrvFinal = len(wire), atEnd, len(wire)
+	wsx, units := kaWireSx(wire, o.NSucc, true)
+	if in.End != "srvclose" {
+		wsx, units = kaWireSx(wire, len(o.PingUs), false)
+	}
+	o.Wire = string(wire)
+	o.SrvN, o.SrvAtEnd, o.SrvFinal = units, atEnd, len(wire)
 	o.MidWant, o.MidGot, o.LostWhileUp, o.RawBad = midWant, midGot, lostWhileUp, rawBad
 	if in.End == "srvclose" {
 		go client.Disconnect() // the transport is still open: let it go (up to ConnectTimeout, in the background)
 	}
-	return L(kaEvsSx(evs), SBytes(string(wire)), L(), L(Zi(o.ErrCalls), Zi(o.DiscEvents))), o
+	return L(kaEvsSx(evs), wsx, L(), L(Zi(o.ErrCalls), Zi(o.DiscEvents))), o
 }
 
 // kaNotTLSRecords: "" if b is a sequence of TLS records (the last one possibly incomplete),
@@ -1094,7 +1211,7 @@ func runKeepaliveWS(in *c18In, attempt int) (Sx, *c18Obs) {
 		o.DetectUs = discAt.Sub(cutAt).Microseconds()
 	}
 	mu.Unlock()
-	return L(kaEvsSx(evs), SBytes(""), L(), L(Zi(o.ErrCalls), Zi(o.DiscEvents))), o
+	return L(kaEvsSx(evs), L(), L(), L(Zi(o.ErrCalls), Zi(o.DiscEvents))), o
 }
 
 // ---- model input ----
@@ -1178,7 +1295,7 @@ func (c18) Oracle(inp interface{}, obs Sx) (string, string) {
 	}
 	pings := cnt[kaPingOk] + cnt[kaPingFail]
 	if in.Kind == "badiv" {
-		// outside "all intervals": time.NewTicker panics; nothing may have been sent or closed
+		// outside "all intervals" (HEAD panics in time.NewTicker): only "nothing sent, nothing closed" is required
 		if pings != 0 || cnt[kaClose] != 0 {
 			return "non-positive interval: keep-alive activity observed", "badiv-activity"
 		}
@@ -1187,6 +1304,7 @@ func (c18) Oracle(inp interface{}, obs Sx) (string, string) {
 	if cnt[kaPanic] > 0 {
 		return "the keep-alive goroutine panicked", "panic"
 	}
+	wire := []byte(o.Wire)
 	// once the loop is over nothing follows
 	if firstRet >= 0 && firstRet != len(codes)-1 {
 		for _, c := range codes[firstRet+1:] {
@@ -1265,14 +1383,11 @@ func (c18) Oracle(inp interface{}, obs Sx) (string, string) {
 		if in.tooFewPings() {
 			return fmt.Sprintf("session up for %d intervals, %d keep-alives (3 attempts)", in.nominal(), pings), "too-few-pings"
 		}
-		wire := bytesOf(obs.L[1])
-		for _, b := range wire {
-			if b != '\n' {
-				return fmt.Sprintf("after the initial presence the server read %q", string(wire)), "ping-content"
-			}
+		if !kaAllWS(wire) {
+			return fmt.Sprintf("after the initial presence the server read %q: not white space", string(wire)), "ping-content"
 		}
-		if len(wire) > pings || (in.End == "srvclose" && len(wire) != cnt[kaPingOk]) {
-			return fmt.Sprintf("%d successful pings, server read %d keep-alive bytes", cnt[kaPingOk], len(wire)), "wire-count"
+		if o.SrvN > pings || (in.End == "srvclose" && o.SrvN != cnt[kaPingOk]) {
+			return fmt.Sprintf("%d successful pings, server read %d bytes of white space", cnt[kaPingOk], len(wire)), "wire-count"
 		}
 	case "run", "phase", "quitfirst", "tcprun":
 		if cnt[kaPingFail] != 0 {
@@ -1304,10 +1419,11 @@ func (c18) Oracle(inp interface{}, obs Sx) (string, string) {
 			return "connection dropped by the server but no keep-alive ever failed", "failure-not-reached"
 		}
 	case "conn":
-		// every Ping: exactly one conn.Write call, of exactly the byte "\n"
+		// every Ping: a non-empty run of XML white space and nothing else
 		for i, pw := range o.PingWrites {
-			if len(pw) != 1 || pw[0] != "\n" {
-				return fmt.Sprintf("ping %d made the conn.Write calls %q", i+1, pw), "ping-content"
+			all := []byte(strings.Join(pw, ""))
+			if len(all) == 0 || !kaAllWS(all) {
+				return fmt.Sprintf("ping %d made the conn.Write calls %q: not a whitespace keep-alive", i+1, pw), "ping-content"
 			}
 		}
 		if len(o.PingWrites) != pings {
@@ -1341,19 +1457,16 @@ func (c18) Oracle(inp interface{}, obs Sx) (string, string) {
 		}
 	}
 	if in.tcp() {
-		wire := bytesOf(obs.L[1])
-		for _, b := range wire {
-			if b != '\n' {
-				return fmt.Sprintf("keep-alive put %q on the wire", string(wire)), "ping-content"
-			}
+		if !kaAllWS(wire) {
+			return fmt.Sprintf("keep-alive put %q on the wire: not white space", string(wire)), "ping-content"
 		}
-		if in.Kind == "tcprun" && len(wire) != cnt[kaPingOk] {
+		if in.Kind == "tcprun" && o.SrvN != cnt[kaPingOk] {
 			return fmt.Sprintf("%d successful pings, server read %d bytes", cnt[kaPingOk], len(wire)), "wire-count"
 		}
-		if in.Kind == "tcprun" && len(wire) < 3 {
-			return fmt.Sprintf("only %d keep-alives reached the server in %d intervals", len(wire), in.Ticks), "too-few-pings"
+		if in.Kind == "tcprun" && o.SrvN < 3 {
+			return fmt.Sprintf("only %d keep-alives reached the server in %d intervals", o.SrvN, in.Ticks), "too-few-pings"
 		}
-		if in.Kind == "tcpfail" && len(wire) > pings {
+		if in.Kind == "tcpfail" && o.SrvN > pings {
 			return fmt.Sprintf("%d pings attempted, server read %d bytes", pings, len(wire)), "wire-count"
 		}
 	}
